@@ -128,7 +128,7 @@ PLAN["C16"] = {
     "claim": "Every LTS x partition x block preorder x output size of the finite domains, relation compared entry by entry with the definition.",
     "technique": "bounded exhaustive enumeration of labelled transition systems x all partitions x all block preorders against a naive greatest-fixpoint simulation",
     "quick": [("rel", "c16.n3l2k7"), ("rel", "c16.n4l1k4b3"), ("rel", "c16.n3l3k4"), ("rel", "c16.n4l2k3b3"), ("rel", "c16.family.n17n20"), ("rel", "c16.family.n33n40")],
-    "thorough": [("rel", "c16.n3l2all"), ("rel", "c16.n4l1all"), ("rel", "c16.n3l3k5"), ("rel", "c16.n4l2k5b3"), ("rel", "c16.n5l1k5b3"), ("rel", "c16.family.n17n20"), ("rel", "c16.family.n33n40"), ("rel", "c16.family.n65"), ("asan", "c16.n3l2k5"), ("asan", "c16.n4l1k4b3"), ("asan", "c16.family.n17n20")],
+    "thorough": [("rel", "c16.n3l2all"), ("rel", "c16.n4l1all"), ("rel", "c16.n3l3k5"), ("rel", "c16.n4l2k5b3"), ("rel", "c16.n5l1k5b3"), ("rel", "c16.family.n17n20"), ("rel", "c16.family.n33n40"), ("rel", "c16.family.n65n130"), ("asan", "c16.n3l2k5"), ("asan", "c16.n4l1k4b3"), ("asan", "c16.family.n17n20"), ("asan", "c16.family.n65")],
     "require": {"all": ["relation_pruned", "relation_kept", "output_size_16", "output_size_above_16"]},
 }
 
@@ -302,7 +302,7 @@ PLAN["C19"] = {
 
 _C20_ASAN_QUICK = ["c01.n2s2k2", "c01.trim.n2s3.a3b3", "c02.n2s3k2", "c03.n3s3pk3", "c03.n3afhk3", "c04.n2s3k4", "c04.n3s3pk3", "c05.n3s3pk3", "c06.n2s2k3", "c06.n2sAFk4", "c06.sparse.n2s2k3",
                    "c07.n2s2k2", "c07.trim.n3ah.a2b3", "c08.single.n2s2k3", "c08.pairs.trim.n2s2k3", "c08.hist.bu.d3", "c08.hist.td.d3", "c09.n2l1", "c10.single.n3l2k3", "c10.pairs.n2l1",
-                   "c11.tree.d4", "c11.fa.d5", "c12.d5", "c14.n3s3pk2", "c15.n3s3pk3", "c15.n3afhk3", "c16.n3l2k4", "c16.family.n17n20", "c17.v3.base", "c17.v3.apply2", "c17.v3.trees", "c17.v3.allfn", "c18.d3",
+                   "c11.tree.d4", "c11.fa.d5", "c12.d5", "c14.n3s3pk2", "c15.n3s3pk3", "c15.n3afhk3", "c16.n3l2k4", "c16.family.n17n20", "c16.family.n65", "c17.v3.base", "c17.v3.apply2", "c17.v3.trees", "c17.v3.allfn", "c18.d3",
                    "c13.text.len3", "c13.enc.tree.n2s2k3", "c13.enc.fa.n2l2k3", "c19.corpus.small.single", "c19.corpus.smaller.single"]
 _C20_DIFF_QUICK = ["c01.n2s2k2", "c02.n2s3k2", "c03.n3s3pk3", "c05.n3s3pk3", "c06.n2s2k3", "c07.n2s2k2", "c08.single.n2s2k3", "c08.pairs.trim.n2s2k3", "c09.n2l1", "c10.single.n3l2k3", "c10.pairs.n2l1",
                    "c14.n3s3pk2", "c15.n3s3pk3", "c16.n3l2k4", "c17.v3.apply2", "c04.n2s3k4"]
